@@ -14,6 +14,8 @@ import (
 
 	"github.com/hashicorp/hcl-lang/decoder"
 	"github.com/hashicorp/hcl-lang/reference"
+	"github.com/hashicorp/hcl-lang/schema"
+	"github.com/zclconf/go-cty/cty"
 )
 
 func init() { props["C19"] = runC19 }
@@ -286,6 +288,14 @@ func genDual(r *rand.Rand) DBody {
 		for k, m := 0, r.Intn(3); k < m; k++ {
 			rb.Blocks = append(rb.Blocks, DBlock{Type: "item", Body: DBody{Attrs: []DAttr{{"val", g.strOrRef()}}}})
 		}
+		if i%2 == 0 && typ == "gcp" {
+			// dynamic blocks of two block types of the dependent body, with different bodies (no random draw)
+			fe := DAttr{Name: "for_each", Val: DExpr{Kind: "list", Items: []DExpr{{Kind: "str", Str: "a"}}}}
+			rb.Blocks = append(rb.Blocks,
+				DBlock{Type: "dynamic", Labels: []string{"meta"}, Body: DBody{Attrs: []DAttr{fe}, Blocks: []DBlock{{Type: "content", Body: DBody{Attrs: []DAttr{{"key", DExpr{Kind: "str", Str: "k"}},
+					{"obj", DExpr{Kind: "obj", Keys: []string{"a", "b"}, Items: []DExpr{{Kind: "str", Str: "x"}, {Kind: "num", Str: "1"}}}}}}}}}},
+				DBlock{Type: "dynamic", Labels: []string{"extra"}, Body: DBody{Attrs: []DAttr{fe}, Blocks: []DBlock{{Type: "content", Body: DBody{Attrs: []DAttr{{"e1", DExpr{Kind: "str", Str: "s"}}, {"e2", DExpr{Kind: "num", Str: "1"}}}}}}}})
+		}
 		b.Blocks = append(b.Blocks, DBlock{Type: "res", Labels: []string{typ, name}, Body: rb})
 		g.decls = append(g.decls, fmt.Sprintf("res.%s.%s", typ, name))
 	}
@@ -417,6 +427,7 @@ func runC19(run *Run, replay string) {
 	}
 	ctx := context.Background()
 	jsonRefCases(run, rand.New(rand.NewSource(subSeed(run.Res.Seed, 191919))), n*5)
+	objectKeyParityOracle(run)
 	for i := 0; i < n; i++ {
 		r := rand.New(rand.NewSource(subSeed(run.Res.Seed, i)))
 		db := genDual(r)
@@ -528,5 +539,74 @@ func c14JSON(run *Run, n int) {
 				Detail: firstDiff(outlineProj(sn), outlineProj(sj)), Replay: loc})
 		}
 		jsonSymbolOrder(run, sj, loc)
+	}
+}
+
+// objectKeyParityOracle: objects under an Object constraint in which one key is written as an expression - in
+// native syntax a parenthesised literal ("k3"), in JSON the plain member name - before, between and behind
+// members holding references.  The references written in the other members are the same in both renderings.
+func objectKeyParityOracle(run *Run) {
+	sch := &schema.BodySchema{Attributes: map[string]*schema.AttributeSchema{
+		"obj": {IsOptional: true, Constraint: schema.Object{Attributes: schema.ObjectAttributes{
+			"first":  {IsOptional: true, Constraint: schema.AnyExpression{OfType: cty.String}},
+			"second": {IsOptional: true, Constraint: schema.Reference{OfScopeId: "local"}},
+			"third":  {IsOptional: true, Constraint: schema.AnyExpression{OfType: cty.DynamicPseudoType}},
+		}}},
+	}}
+	type member struct{ nat, js string }
+	refs := []member{
+		{`first = var.a`, `"first": "${var.a}"`},
+		{`second = local.b`, `"second": "${local.b}"`},
+		{`third = [var.c, local.d]`, `"third": ["${var.c}", "${local.d}"]`},
+	}
+	key := member{`("k3") = "x"`, `"k3": "x"`}
+	for pos := 0; pos <= len(refs); pos++ {
+		for n := 1; n <= len(refs); n++ {
+			if pos > n {
+				continue
+			}
+			var ms []member
+			ms = append(ms, refs[:pos]...)
+			ms = append(ms, key)
+			ms = append(ms, refs[pos:n]...)
+			var nat, js []string
+			for _, m := range ms {
+				nat = append(nat, m.nat)
+				js = append(js, m.js)
+			}
+			natSrc := "obj = { " + strings.Join(nat, ", ") + " }\n"
+			jsSrc := "{\"obj\": {" + strings.Join(js, ", ") + "}}\n"
+			addrs := func(file, src string) ([]string, bool) {
+				w := newWorld()
+				pd := w.AddPath("root", sch, map[string]string{file: src}, nil)
+				if pd.Ctx.Files[file] == nil {
+					return nil, false
+				}
+				d, _ := w.Dec.Path(pd.Path)
+				res := safeCall("CollectReferenceOrigins", func() (interface{}, error) { return d.CollectReferenceOrigins() })
+				if res.Panic != "" || res.Err != nil {
+					return nil, false
+				}
+				var out []string
+				for _, o := range res.Val.(reference.Origins) {
+					if mo, ok := o.(reference.MatchableOrigin); ok {
+						out = append(out, mo.Address().String())
+					}
+				}
+				sort.Strings(out)
+				return out, true
+			}
+			a, ok1 := addrs("main.tf", natSrc)
+			b, ok2 := addrs("main.tf.json", jsSrc)
+			run.Res.Evaluations++
+			run.Count("object_key_parity_pairs")
+			if !ok1 || !ok2 {
+				continue
+			}
+			if strings.Join(a, " ") != strings.Join(b, " ") {
+				run.Violate(Violation{Key: "C19/origins-differ/object-with-expression-key", Rule: "JSON yields the same reference origins (address) as native syntax", Func: "CollectReferenceOrigins",
+					Detail: fmt.Sprintf("native %v, JSON %v", a, b), Replay: map[string]interface{}{"kind": "object-key-parity", "native": natSrc, "json": jsSrc}})
+			}
+		}
 	}
 }
